@@ -1363,7 +1363,10 @@ func (w *world) genBlockDt(r *Rng) int64 {
 			return int64(1+r.Intn(30)) * sec
 		}
 		e := ahead[r.Intn(len(ahead))]
-		dt := e - now + []int64{-1, 0, 0, 1, sec / 2, -sec / 2, sec}[r.Intn(7)]
+		if ce := w.cfg.ClaimEndOff; ce-now > -2 && ce-now < 400*sec && r.Chance(1, 3) {
+			e = ce
+		}
+		dt := e - now + []int64{-1, 0, 0, 1, sec / 2, -sec / 2, sec, sec/2 - 100, sec - 1}[r.Intn(9)]
 		if dt < 0 {
 			dt = 0
 		}
@@ -1381,6 +1384,15 @@ func (w *world) genOp(r *Rng, s *snap, step int) op {
 	// the setup steps of a source come first; afterwards one operation in 25 is a parameter change
 	if step >= 4 && r.Chance(1, 25) {
 		return w.genParams(r)
+	}
+	// a block that landed less than one second past the claim deadline: claims must already be
+	// refused (the deadline is compared as an instant, not in whole seconds) — aim a claim there
+	if off := w.t.UnixNano() - w.t0 - w.cfg.ClaimEndOff; step >= 4 && off > 0 && off < 1_000_000_000 && r.Chance(3, 4) {
+		u, d := r.Intn(w.nU), r.Intn(nDenoms)
+		for try := 0; try < 8 && s.synced[u][d].Sign() == 0; try++ {
+			u, d = r.Intn(w.nU), r.Intn(nDenoms)
+		}
+		return op{Kind: "claim", U: u, D: d, M: "large"}
 	}
 	switch w.src {
 	case "delegator":
